@@ -7,18 +7,18 @@ C={
 "C01":"bounded symbolic execution of the log round trip's byte-level codecs: block timestamps (writer encodeTimestamps vs reader convertRawRecordsToTimestamps), block summaries with column offset tables, the chunked column buffer across the 16 KiB boundary, the dictionary block (checkAddDictEnc/PackDictEnc vs ReadDictEnc) and the column-alignment step (doLogEventFilling for 2-3 events x 2 columns walked back with the reader's own record-length logic); JSON tokenizer, zstd and files outside the claim",
 "C02":"bounded symbolic execution of the real search-filter comparison (ApplySearchToExpressionFilterSimpleCsg..compareNumberDte) for all numeric values within 2^53 and six operators, string equality, time-range functions, the AND/OR/NOT combination of per-record match sets (executeRawSearchOnNode..updateMatchedRecords over eight node shapes) and JoinRequest's block/column union; wildcard/regex/where-evaluator outside the claim",
 "C03":"soundness of skipping and of acceleration paths: a matching value keeps its block in the range micro-index (CheckRangeIndex/updateRangeIndex), time pruning never drops a block holding an in-range record, the dictionary path selects exactly the records the per-record check selects, and the ingest-time pre-aggregated statistics equal the raw aggregate",
-"C04":"bounded symbolic execution of the real time-bucket function over all 64-bit ranges/steps (cvc5 bv-as-int for the division kernel) and of the merge of two segments' pre-aggregated statistics (count/sum/avg/min/max)",
+"C04":"bounded symbolic execution of the real time-bucket function over all 64-bit ranges/steps (cvc5 bv-as-int for the division kernel) of the merge of segments' pre-aggregated statistics (count/sum/avg/min/max/range/latest/earliest, several measures over one column) and of group-by accumulation and result extraction over 1-3 events",
 "C05":"bounded symbolic execution of the sort comparator (consistent with the numeric order, antisymmetric, transitive), head-based paging over real IQRs, the segment scheduling rounds, and the multi-stream merge with a limit (DataProcessor.getStreamInput: exactly the first N rows of the merged order for every distribution over streams and batches)",
 "C06":"bounded symbolic execution of head/tail/dedup over real IQRs with a free partition of T<=4 rows into batches, of bin's first pass (min/max of the whole stream for any batching, all finite floats) and of a two-pass read through the merge (Rewind then the same rows again)",
 "C07":"crash point as a free variable on a file model: WriteSfm rewrite and ChecksumFile partial-chunk append stopped before any file-system operation (writes possibly torn) leave the old or the new document / every earlier chunk intact; the startup scan registers exactly the segment directories holding a complete .sfm, whatever mixture of states a crashed history left (narrow claim, see DESIGN.md)",
 "C08":"bounded symbolic execution of the real Gorilla codec: value and timestamp halves of one step from an arbitrary valid codec state, bit I/O at every alignment, 2-3 point streams through the public entry points over all 2^64 value bit patterns; series identity (TSID) and TSO lookup for small tag sets",
 "C09":"bounded symbolic execution of Series.AddEntry/Merge/Downsample/AggregateFromSingleTimeseries (bucket values equal sum/min/max/avg of their points for any split into merged series) and of the regex label-matcher predicate with Go's regexp interpreted from source (whole-value match)",
 "C10":"bounded symbolic execution of Wal.Append / DPWalIterator.Next on a file model: a log cut at every byte yields exactly the complete blocks, one altered byte never yields an altered datapoint; appendToWALBuffer with rotation and a crash before any file-system operation followed by RecoverWALData replays exactly the appended batches",
-"C12":"bounded symbolic execution of quickSelect/FindPercentileData (N<=4/6 durations) and BuildSpanTree (3 spans, all parent shapes incl. cycles and missing parents)",
+"C12":"bounded symbolic execution of quickSelect/FindPercentileData (N<=4/6 durations) BuildSpanTree (3 spans, all parent shapes incl. cycles and missing parents) and the scroll stage used to page through a trace's spans",
 "C13":"bounded symbolic execution of FilterSegmentsByTime / FilterUnrotatedSegmentsInQuery over 2-3 segments (returned iff index named, organisation is the requester's, range overlaps), of index-expression expansion with Go's regexp interpreted from source, and of alias add/remove histories (an alias resolves to the last written indexes of its tenant)",
 "C14":"bounded symbolic execution of DoRetentionBasedDeletion (victims are exactly the requester's expired segments; idempotent), of the in-memory removal (a deleted segment is in no list, survivors listed once, ties included) and of the metrics meta rewrite over the file model (survivors keep directory, entry and shared tags tree)",
 "C15":"bounded symbolic execution of HandleBulkBody over bodies of 1-3(4) actions with free action/index/size/parse/store outcomes: one item per action, created iff handed to the store and stored, errors flag iff some item failed",
-"C16":"symbolic execution of ExtractTimeStamp/ConvertTimestampToMillis over every integer timestamp in the seconds, millisecond and nanosecond bands in number, decimal-point-number and string forms, and of the handler-set event time through ProcessIndexRequestPle (time half of C16 only)",
+"C16":"symbolic execution of ExtractTimeStamp/ConvertTimestampToMillis over every integer timestamp in the seconds, millisecond and nanosecond bands in number, decimal-point-number and string forms, of the handler-set event time through ProcessIndexRequestPle, of the OTLP log record mapping (time, trace/span id, attributes) and of the Splunk HEC event time on concrete values (time and identifier half of C16; HTTP/JSON/protobuf decoding outside the claim)",
 "C18":"bounded symbolic execution of ChecksumFile append/read under one altered byte or truncation at any position, of the block-summary, TSO/TSG, timestamp-block and Gorilla decoders on arbitrary bytes, and of the column-file and timestamp-file readers over damaged two-block files in any load order: original values or an error, never a panic or another block's data",
 "C19":"bounded symbolic execution of the lookup-file handlers and the inputlookup command with a free client-supplied name of up to 7 bytes against a path monitor: every path handed to the os package stays under the data directory",
 "C20":"bounded symbolic execution of handleAlertCondition/NotifyAlertHandlerRequest over all outcome histories of length 4/5 against an in-memory database and a symbolic clock, and of the index-alias keyed store (add/remove histories, restart) over the file model; other saved objects outside the claim",
